@@ -259,8 +259,9 @@ class Ctx:
             raise MachineryError("%d of %d real calls timed out (>2%%)" % (self.inconclusive, total))
         for fkey, h in sorted(self.known_hits.items()):
             f = self.findings[fkey]
-            log("KNOWN-FINDING: property=%s %s: %s [%d records this run]" % (
-                self.pid, f["function"], f["what"], h["count"]))
+            log("KNOWN-FINDING: property=%s %s fails %s on input class %s [%d records this run]: %s" % (
+                self.pid, f["function"], f["clause"], f["input_class"], h["count"],
+                f["what"][:160] + ("..." if len(f["what"]) > 160 else "")))
         for fn, clause, klass, path, what in self.violations:
             log("VIOLATION property=%s replay=%s" % (self.pid, path))
             log("  %s fails clause %s (input class %s) %s" % (fn, clause, klass, what))
